@@ -12,6 +12,7 @@ class UNode(NodeMixin):                       # user NodeMixin class (module lev
         self.label = label
         self.name = "u%d" % label
         self.extra = {"k": [label]}
+        self.opt = None if label % 2 == 0 else 0
         self.parent = parent
 
 
@@ -35,13 +36,14 @@ class EqNode(UNode):                          # value equality: every two nodes 
 
 
 class LNode(LightNodeMixin):                  # __slots__ class: protocols >= 2 only
-    __slots__ = ["label", "extra", "name"]
+    __slots__ = ["label", "extra", "name", "opt", "unset"]
 
     def __init__(self, label, parent=None):
         self.label = label
         self.name = "l%d" % label
         self.extra = ("t", label)
-        self.parent = parent
+        self.opt = None if label % 2 == 0 else 0      # a slot holding None / a falsy value is not an unset slot
+        self.parent = parent                          # (`unset` is never assigned)
 
 
 class LDictNode(LightNodeMixin):              # a LightNodeMixin subclass *without* __slots__: attributes live in __dict__
@@ -103,7 +105,8 @@ def describe(entry):
         if isinstance(o, SymlinkNodeMixin):
             attrs = {"target": ids[id(o.__dict__["target"])]}
         elif isinstance(o, LNode):
-            attrs = {"label": o.label, "extra": list(o.extra), "name": o.name}
+            attrs = {"label": o.label, "extra": list(o.extra), "name": o.name,
+                     "opt": repr(getattr(o, "opt", "<unset>")), "unset": repr(getattr(o, "unset", "<unset>"))}
             attrs.update({k: v for k, v in getattr(o, "__dict__", {}).items()})
         elif isinstance(o, LDictNode):
             attrs = {k: v for k, v in o.__dict__.items() if not k.startswith("_LightNodeMixin")}
